@@ -734,6 +734,10 @@ class Interp:
                 return r
             if dn in NP_FUNCS and len(e.args) == 1:
                 return NP_FUNCS[dn](self.ev(e.args[0]))
+            if dn in ("np.full", "numpy.full", "np.full_like", "numpy.full_like") and len(e.args) >= 2:
+                return lift(self.ev(e.args[1]))
+            if dn in ("np.empty", "numpy.empty", "np.empty_like", "numpy.empty_like"):
+                return ("uninitialised array",)          # only a later fill() gives it a value
             if dn in ("np.ones", "numpy.ones", "np.ones_like"):
                 return Rat.const(1)
             if dn in ("np.zeros", "numpy.zeros", "np.zeros_like"):
@@ -886,6 +890,13 @@ class Interp:
             if self.ret is not None:
                 return True
             if isinstance(st, ast.Expr):
+                c = st.value
+                if isinstance(c, ast.Call) and isinstance(c.func, ast.Attribute) and isinstance(c.func.value, ast.Name) and c.func.value.id in self.env:
+                    if c.func.attr == "fill" and len(c.args) == 1 and not c.keywords:
+                        self.env[c.func.value.id] = lift(self.ev(c.args[0]))        # a.fill(v): every element is v from here on
+                        continue
+                    if c.func.attr in ("sort", "resize", "put", "itemset", "partition", "setfield", "clip", "round") and isinstance(self.env[c.func.value.id], (Rat, tuple)):
+                        raise Undecided("in-place %s of an array" % c.func.attr)
                 continue     # docstrings, bare calls without effect on values
             if isinstance(st, ast.Assign):
                 v = self.ev(st.value)
